@@ -346,6 +346,40 @@ func regexDoc(subject, pattern string) *world.Doc {
 	return world.Build(0, scn.DocSpec{C: []*scn.NodeSpec{{K: "e", N: "r", C: []*scn.NodeSpec{sN, pN}}}})
 }
 
+// BadPatternContexts: places in an expression where matches() with a constant
+// pattern can stand ("a constant pattern that does not compile is rejected by
+// Compile" - wherever it stands). P is replaced by the quoted pattern.
+var BadPatternContexts = []string{
+	"matches(., P)",
+	"//a[matches(., P)]",
+	"//a[matches(., P)]//b",
+	"//a[matches(., P)]/b",
+	"//a//b[matches(@k, P)]",
+	"matches(., P) and true()",
+	"true() or matches(., P)",
+	"false() and matches(., P)",
+	"matches(., P) = true()",
+	"'x' != matches(., P)",
+	"not(matches(., P))",
+	"boolean(matches(., P))",
+	"count(//a[matches(@k, P)])",
+	"string(matches(., P))",
+	"//a[matches(., P)] | //b",
+	"//b | //a[matches(., P)]",
+	"(//a[matches(., P)])[1]",
+	"//a[b[matches(., P)]]",
+	"matches(., (P))",
+	"concat(string(matches(., P)), 'x')",
+	"//a[@k = 'x' and matches(., P)]",
+	"//a[1][matches(., P)]",
+	"//a[matches(., P)][1]",
+	"matches(//a, P)",
+	"//a[not(matches(., P))]/@k",
+	"1 + matches(., P)",
+	"-matches(., P)",
+	"//a[matches(., P) or @k]",
+}
+
 // opRegex performs matches()/replace()/compilebad through Compile+Evaluate
 // and compares with Go's regexp used directly.
 func (m *cacheModel) opRegex(step int, st scn.Step, owner int32) string {
@@ -380,7 +414,7 @@ func (m *cacheModel) opRegex(step int, st scn.Step, owner int32) string {
 	case "replace":
 		text = "replace(" + subj + ", " + pat + ", " + q(st.R) + ")"
 	case "compilebad":
-		text = "matches(., " + q(st.K) + ")"
+		text = strings.ReplaceAll(BadPatternContexts[st.N%len(BadPatternContexts)], "P", q(st.K))
 		constant = true
 	}
 	ex, co := compile(text)
@@ -538,7 +572,13 @@ func (m *cacheModel) opPerNode(step int, st scn.Step) string {
 		return "unjudged"
 	}
 	var text string
-	switch st.N % 5 {
+	// subjects whose query keeps state between evaluations unless it is cloned per call
+	subjExpr := []string{"(*)[1]", "ancestor::*[1]/@k", "following-sibling::*[1]", "*[last()]", "(.//text())[1]", "preceding-sibling::*[1]/@k", "../*[2]"}[(st.C>>1)%7]
+	switch st.N % 7 {
+	case 5:
+		text = "matches(" + subjExpr + ", " + q(st.K) + ")"
+	case 6:
+		text = "replace(" + subjExpr + ", " + q(st.K) + ", " + q(st.R) + ")"
 	case 0:
 		text = "matches(@k, " + q(st.K) + ")"
 	case 1:
@@ -552,11 +592,12 @@ func (m *cacheModel) opPerNode(step int, st scn.Step) string {
 	}
 	constRe, cerr := regexp.Compile(st.K)
 	ex, co := compile(text)
+	v := st.N % 7
 	if ex == nil {
-		if cerr != nil && (st.N%5 == 0 || st.N%5 == 1) && co.Kind == "cerr" {
+		if cerr != nil && (v == 0 || v == 1 || v == 5) && co.Kind == "cerr" {
 			return "rejected" // I4 is judged by the compilebad / matches steps
 		}
-		if cerr != nil && (st.N%5 == 0 || st.N%5 == 1) {
+		if cerr != nil && (v == 0 || v == 1 || v == 5) {
 			x.viol("regex-precheck", "regex-precheck:panic", fmt.Sprintf("Compile(%q) panicked (%s) instead of returning an error for a constant pattern Go's regexp rejects", text, clip(co.Key())), step)
 			return "panicked"
 		}
@@ -601,14 +642,25 @@ func (m *cacheModel) opPerNode(step int, st scn.Step) string {
 		// this node's operands
 		re, rerr := constRe, cerr
 		subject := n.StringValue()
-		if st.N%5 == 0 || st.N%5 == 2 || st.N%5 == 4 {
+		if v == 5 || v == 6 {
+			// the subject as a freshly compiled expression sees it from this node
+			outer := x.sim.mainEnv
+			has := x.soloRun("boolean("+subjExpr+")", 0, n.ID, "eval", 0)
+			sv := x.soloRun("string("+subjExpr+")", 0, n.ID, "eval", 0)
+			x.sim.mainEnv = outer
+			if has.Key() != valueOutcome(true).Key() || sv.Kind != "str" {
+				continue // empty node-set subject (or no value): executed, not judged
+			}
+			subject = sv.V
+		}
+		if v == 0 || v == 2 || v == 4 {
 			k := attr(n, "k")
 			if k == nil {
 				continue // an empty node-set as subject: executed, not judged (DESIGN 5.4)
 			}
 			subject = k.Data
 		}
-		if st.N%5 == 2 || st.N%5 == 4 {
+		if v == 2 || v == 4 {
 			p := attr(n, "p")
 			if p == nil {
 				continue
@@ -624,7 +676,7 @@ func (m *cacheModel) opPerNode(step int, st scn.Step) string {
 			continue // a pattern only known at run time that does not compile: nothing promised
 		}
 		var want Outcome
-		if st.N%5 == 2 || st.N%5 == 3 {
+		if v == 2 || v == 3 || v == 6 {
 			if !replInDomain(st.R, re.NumSubexp()) {
 				continue
 			}
